@@ -122,13 +122,21 @@ func Load(repo, binDir string) *Prog {
 
 func LoadWithOverlay(repo string, overlay map[string][]byte) *Prog {
 	fset := token.NewFileSet()
+	// The go command that go/packages spawns must be the toolchain this checker was built
+	// with (the default go is older and cannot auto-switch offline).
+	env := os.Environ()
+	const goBin = "/opt/veriftools/go1.26.8/bin"
+	if _, err := os.Stat(filepath.Join(goBin, "go")); err == nil {
+		os.Setenv("PATH", goBin+string(os.PathListSeparator)+os.Getenv("PATH"))
+		env = os.Environ()
+	}
 	cfg := &packages.Config{
 		Mode:    packages.LoadAllSyntax,
 		Dir:     repo,
 		Fset:    fset,
 		Overlay: overlay,
 		Tests:   false,
-		Env: append(os.Environ(), "GOFLAGS=-mod=mod", "GOPROXY=off", "GOSUMDB=off",
+		Env: append(env, "GOFLAGS=-mod=mod", "GOPROXY=off", "GOSUMDB=off",
 			"GOTOOLCHAIN=local", "GOWORK=off"),
 	}
 	pkgs, err := packages.Load(cfg, "./...")
@@ -239,7 +247,30 @@ func (p *Prog) Func(rel, name string) *FuncInfo {
 	return f
 }
 
-func (p *Prog) FuncObj(rel, name string) *types.Func { return p.Func(rel, name).Obj }
+// FuncObj resolves a declared function, a concrete method or an interface method.
+func (p *Prog) FuncObj(rel, name string) *types.Func {
+	if f := p.TryFunc(rel, name); f != nil {
+		return f.Obj
+	}
+	if i := strings.LastIndex(name, "."); i >= 0 {
+		recv, meth := name[:i], name[i+1:]
+		recv = strings.TrimSuffix(strings.TrimPrefix(strings.TrimPrefix(recv, "("), "*"), ")")
+		path := Module
+		if rel != "" {
+			path += "/" + rel
+		}
+		if pkg := p.ByPath[path]; pkg != nil {
+			if tn, ok := pkg.Types.Scope().Lookup(recv).(*types.TypeName); ok {
+				obj, _, _ := types.LookupFieldOrMethod(tn.Type(), true, pkg.Types, meth)
+				if fn, ok := obj.(*types.Func); ok {
+					return fn.Origin()
+				}
+			}
+		}
+	}
+	Fatalf("unresolved anchor: func %s.%s", rel, name)
+	return nil
+}
 
 // FuncInfoOf returns the syntax for a main-module function object (nil for others).
 func (p *Prog) FuncInfoOf(fn *types.Func) *FuncInfo {
